@@ -243,6 +243,9 @@ func (en *Engine) Run(fn *ssa.Function) (*Result, error) {
 	fr := &Frame{fn: fn, ctx: "", env: map[ssa.Value]Val{}, block: fn.Blocks[0]}
 	for i, p := range fn.Params {
 		v := &ParamV{Fn: fn, Idx: i, Name: p.Name()}
+		if cp, ok := canonParams[shortFn(fn)]; ok && i < len(cp) && cp[i] != "" {
+			v.Name = cp[i] // positional: the rules' name for this parameter, whatever the source calls it
+		}
 		v.typ = p.Type()
 		v.key = p.Name()
 		fr.env[p] = v
